@@ -368,3 +368,8 @@ M("C18-nonstruct-accepted", ["C18"], "devpkg/partialstruct/partialstruct.go", '	
 M("C18-no-origin-accepted", ["C18"], "devpkg/partialstruct/partialstruct.go", '		return fmt.Errorf("need to define type like `type xxx sourcepkg.Type`")', "		ps.Origin = named.Obj()", "a struct literal declaration generates code against itself")
 M("C18-nil-copy", ["C18"], "devpkg/partialstruct/partialstruct.go", "	if in == nil {\n		return nil\n	}\n	out := new(@OriginType)", "	out := new(@OriginType)\n	if in == nil {\n		return out\n	}", "DeepCopyAs of nil returns an empty origin value")
 M("C18-replace-tag-lost", ["C18"], "devpkg/partialstruct/partialstruct.go", '							tag = strings.Join(replaceTo[1:], " ")', '							tag = strings.Join(replaceTo[2:], " ")', "the first word of a replacement tag is lost")
+
+# ---------------------------------------------------------------- round 8
+M("C11-undo-unescape", ["C11", "C10"], "pkg/gengo/internal/dumper.go",
+  "		return d.Name(gengotypes.Ref(tpe.PkgPath(), unescapeTypeArgs(tpe.Name())))", "		return d.Name(gengotypes.Ref(tpe.PkgPath(), tpe.Name()))",
+  "reverts: reflect's %xx escapes in argument package paths are kept")
